@@ -142,7 +142,7 @@ def h_derived(ctx, k, zero='none'):
 
 
 def jobs(tier):
-    ks = [1, 2, 3] if tier == 'quick' else [1, 2, 3, 4]
+    ks = [1, 2, 3] if tier == 'quick' else [1, 2, 3, 4, 5]
     js = []
     for op in ('atten_lin', 'atten_db', 'gain_lin', 'gain_db', 'add_ase', 'add_nli'):
         for k in ks:
